@@ -3,6 +3,7 @@ Each instance names roles (operand, effect of the exit, kind of test) and carrie
 from .facts import walk, strip, loc_str, strip_tmpl
 from . import pathrules as pr
 from .cfg import CFG
+from .ranges import writes_to as ranges_writes
 
 NS = 'embedded_pairing::bls12_381::'
 
@@ -313,6 +314,85 @@ def g8_equality(ctx, cfg_name, prog, rule='R-GUARD/G8'):
                    'representations (x, y, 0), (x\', y\', 0) of the identity would compare unequal' %
                    (f['qn'], p['name'], loc_str(bad[0].ast) if bad else '?', p['name']), cfg=cfg_name,
                    sample=dict(config=cfg_name, function=f['qn'][:100], operand=p['name'], coordinate_decisions=len(decisions)))
+    # the verdict when an operand IS the identity: equal exactly when both are
+    for f in pr.functions_named(prog, NS + 'Projective::equal'):
+        g = CFG(f)
+        tag = f['qn'].split('Projective<')[-1][:24]
+        pn = [q['name'] for q in f['params'][:2]]
+        inits = {}
+        for x in walk(f['body']):
+            if x.get('k') == 'decl':
+                for v in x['vars']:
+                    if v.get('init') is not None and (v.get('t') or {}).get('k') == 'bool':
+                        inits[v['id']] = v['init']
+
+        def bev(e, env, depth=0):
+            e = strip(e)
+            while isinstance(e, dict) and e.get('k') in ('cast', 'load', 'paren'):
+                e = strip(e['e'])
+            if not isinstance(e, dict) or depth > 8:
+                return None
+            o = pr.is_zero_test(e)
+            if o is not None and o in env:
+                return env[o]
+            if e.get('k') == 'lit' and 'bool' in e:
+                return bool(e['bool'])
+            if 'cv' in e and e.get('k') != 'ref':
+                return bool(int(e['cv']))
+            if e.get('k') == 'ref' and e.get('rk') == 'local' and e.get('id') in inits and not ranges_writes(f['body'], e['id']):
+                return bev(inits[e['id']], env, depth + 1)
+            if e.get('k') == 'un' and e.get('op') == '!':
+                v = bev(e['e'], env, depth + 1)
+                return None if v is None else (not v)
+            if e.get('k') == 'bin' and e.get('op') in ('&&', '||'):
+                a = bev(e['lhs'], env, depth + 1)
+                if e['op'] == '&&' and a is False:
+                    return False
+                if e['op'] == '||' and a is True:
+                    return True
+                b = bev(e['rhs'], env, depth + 1)
+                if a is None or b is None:
+                    return None
+                return (a and b) if e['op'] == '&&' else (a or b)
+            if e.get('k') == 'bin' and e.get('op') in ('==', '!='):
+                a, b = bev(e['lhs'], env, depth + 1), bev(e['rhs'], env, depth + 1)
+                if a is None or b is None:
+                    return None
+                return (a == b) if e['op'] == '==' else (a != b)
+            return None
+        bad = None
+        decided = 0
+        for (az, bz) in ((True, False), (False, True), (True, True)):
+            env = {'P:' + pn[0]: az, 'P:' + pn[1]: bz}
+            cur = g.entry.id
+            verdict = None
+            steps = 0
+            while cur is not None and steps < 400:
+                steps += 1
+                n = g.nodes[cur]
+                if n.kind == 'stmt' and n.ast is not None and n.ast.get('k') == 'return':
+                    verdict = bev(n.ast.get('e'), env) if n.ast.get('e') is not None else None
+                    break
+                if not n.succ:
+                    break
+                if n.kind == 'cond':
+                    v = bev(n.ast, env)
+                    if v is None:
+                        cur = None      # a coordinate comparison with an identity operand: the first part of the rule reports it
+                        break
+                    nxt = [y for (y, lab) in n.succ if lab == v]
+                    cur = nxt[0] if nxt else None
+                else:
+                    cur = n.succ[0][0]
+            if verdict is None:
+                continue
+            decided += 1
+            if verdict != (az and bz) and bad is None:
+                bad = (az, bz, verdict)
+        ctx.ob(rule, bad is None, 'G8|equal-identity|%s' % tag, loc_str(f),
+               '%s: with %s %s the identity and %s %s the identity the verdict is %s (the identity equals only the identity)' %
+               ((f['qn'], pn[0], 'being' if bad[0] else 'not', pn[1], 'being' if bad[1] else 'not', bad[2]) if bad else (f['qn'], '', '', '', '', '')),
+               cfg=cfg_name, sample=dict(config=cfg_name, function=f['qn'][:100], identity_cases_decided=decided))
     # Affine::equal: truth table of the returned expression over (a.infinity, b.infinity, x equal, y equal)
     fs = pr.functions_named(prog, NS + 'Affine::equal')
     ctx.floor('%s Affine::equal instantiations[%s]' % (rule, cfg_name), len(fs), 2)
